@@ -342,6 +342,31 @@ func TestSweeps(t *testing.T) {
 		ev.Bulk("sweep/date-all-10^8-bcd-patterns", n, nt)
 	}
 	// (3) date-time fields: all hhmmss patterns (quick: hh,mm,ss each 00..99 in two of three positions; thorough: all 10^6)
+	// boundary date-times next to the sentinels and at the ends of centuries / years / months
+	{
+		var n, nt int64
+		bases := []spec.CivilDT{}
+		for _, y := range []int{1, 2, 99, 100, 1899, 1900, 1969, 1970, 1999, 2000, 2001, 2038, 2099, 2100, 9999} {
+			for _, md := range [][2]int{{1, 1}, {1, 2}, {2, 28}, {3, 1}, {6, 30}, {12, 31}} {
+				for _, hms := range [][3]int{{0, 0, 0}, {0, 0, 1}, {12, 0, 0}, {23, 59, 59}} {
+					if y == 1 && md == [2]int{1, 1} {
+						continue
+					}
+					bases = append(bases, spec.CivilDT{Y: y, M: md[0], D: md[1], H: hms[0], Mi: hms[1], S: hms[2]})
+				}
+			}
+		}
+		for _, d := range []df{{"GetTime", "datetime"}, {"SetTime", "datetime"}, {"GetEvent", "timestamp"}, {"GetStatus", "event.timestamp"}} {
+			call, b := base(d.op, 405419896)
+			off := spec.Responses[d.op].Field(d.name).Off
+			for _, dt := range bases {
+				r := append([]byte(nil), b...)
+				spec.PutDateTime(r[off:], dt)
+				run("datetime", call, r, &n, &nt)
+			}
+		}
+		ev.Bulk("sweep/datetime-boundaries", n, nt)
+	}
 	for _, d := range []df{{"GetTime", "datetime"}, {"GetEvent", "timestamp"}, {"GetStatus", "event.timestamp"}} {
 		var n, nt int64
 		call, b := base(d.op, 405419896)
@@ -481,6 +506,25 @@ func genHistory(t *rapid.T) history {
 		case 1: // same controller, other operation
 			c.Call.Serial = h.Steps[len(h.Steps)-1].Call.Serial
 			c.Reply = gen.Reply(t, c.Call)
+		case 2: // the previous call again with a reply that differs in ONE payload byte by one step (what a cache keyed on a truncated or hashed reply gets wrong)
+			prev := h.Steps[len(h.Steps)-1]
+			c = replyCase{Call: prev.Call, Cfg: prev.Cfg, Reply: append([]byte(nil), prev.Reply...)}
+			if len(c.Reply) == 64 {
+				off := rapid.IntRange(8, 63).Draw(t, "perturb.offset")
+				if rapid.Bool().Draw(t, "perturb.field") {
+					// prefer the last byte of a multi-byte field (seconds, minutes, day, low PIN byte ...)
+					fs := spec.Responses[c.Call.Op].Fields
+					f := fs[rapid.IntRange(0, len(fs)-1).Draw(t, "perturb.which")]
+					if f.Kind != spec.Serial {
+						off = f.Off + f.Kind.Width() - 1 - rapid.IntRange(0, 1).Draw(t, "perturb.back")%f.Kind.Width()
+					}
+				}
+				if c.Reply[off]&0x0f < 9 {
+					c.Reply[off]++
+				} else {
+					c.Reply[off]--
+				}
+			}
 		}
 		h.Steps = append(h.Steps, c)
 	}
